@@ -199,6 +199,10 @@ def run_smtp_hop(cfg, envs, real=False, queue=None):
                 if cfg.get('helo'):
                     reply.code = '500'
                     reply.message = '5.5.2 EHLO not implemented'
+
+            def handle_rcpt(self, reply, recipient, params):
+                if cfg.get('rcpt_verdict'):
+                    reply.code, reply.message = cfg['rcpt_verdict']
         saved = (edge_smtp.Server, edge_smtp.PtrLookup)
         edge_smtp.Server, edge_smtp.PtrLookup = Srv, FakePtrLookup
         try:
@@ -610,6 +614,21 @@ class SlowQueue(CaptureQueue):
 def check_verdicts(res):
     """the edge's queue refuses the message with a given reply: that reply (code and text) is what the relay must report"""
     env0 = make_env('s@x.test', ['a@x.test', 'b@x.test'], HEADERS[0], b'refused\r\n')
+    # the edge refuses every recipient at RCPT: that reply, not the follow-on refusal of DATA, is what the relay reports
+    for code, text in (('450', '4.2.1 greylisted, try again'), ('550', '5.1.1 no such user')):
+        for drop in ([], ['PIPELINING']):
+            outcomes, info = run_smtp_hop({'name': 'rcpt-verdict', 'drop': drop, 'rcpt_verdict': (code, text)}, [env0.copy()])
+            o = outcomes[0][0]
+            per, whole = classify(o, env0)
+            got = reported_replies(o)
+            res.evaluations += 1
+            res.count('edge_verdict_hops')
+            res.outcome(('smtp', 'rcpt', code, whole, tuple(got)))
+            want_class = 'perm' if code[0] == '5' else 'temp'
+            if not all(v == want_class for v in per.values()) or not got or not all(g[0] == code for g in got):
+                res.violation({'transport': 'smtp', 'kind': 'reported-reply-differs', 'verdict': 'rcpt-' + code},
+                              'SMTP hop%s, the edge answers every RCPT with %s %s: the relay reports %s %r' % (' without PIPELINING' if drop else '', code, text, whole, got),
+                              {'t': 'verdict', 'transport': 'smtp', 'code': 'rcpt-' + code})
     # an edge that answers the end of data late but inside the data timeout: its 250 is the result
     for drop in ([], ['PIPELINING']):
         q = SlowQueue()
